@@ -34,7 +34,8 @@ def Found.toAnswer : Found → St → Option Answer
   | .bad, _ => none
 
 /-- The outward search of `dispatch` offers the event exactly as the spec says. -/
-theorem searchLoop_spec (c : Chart) (n : Nat) (hn : ∀ s, c.react s n ≠ .none) :
+theorem searchLoop_spec (c : Chart) (n : Nat) (hn : ∀ s, c.react s n ≠ .none)
+    (hf : ∀ s, c.fall s = false) :
     ∀ (cur : St) (k : Ctx),
       actions (searchLoop c n cur k).2.log = actions k.log ++ (offers c n cur).1 ∧
       (match (offers c n cur).2 with
@@ -53,13 +54,13 @@ theorem searchLoop_spec (c : Chart) (n : Nat) (hn : ∀ s, c.react s n ≠ .none
     | none => exact absurd hr hne
     | unhandled =>
       have := ih { temp := p, log := k.log ++ [⟨a :: p, .user n⟩] ++ [⟨a :: p, .empty⟩] }
-      simp only [searchLoop, offers, hr]
+      simp only [searchLoop, offers, hr, hf, Bool.false_eq_true, if_false]
       constructor
       · simpa [List.append_assoc] using this.1
       · exact this.2
     | pass =>
       have := ih { temp := p, log := k.log ++ [⟨a :: p, .user n⟩] }
-      simp only [searchLoop, offers, hr]
+      simp only [searchLoop, offers, hr, hf, Bool.false_eq_true, if_false]
       constructor
       · simpa [List.append_assoc] using this.1
       · exact this.2
@@ -78,17 +79,23 @@ theorem searchLoop_log_prefix (c : Chart) (n : Nat) :
     | handled => exact ⟨[⟨a :: p, .user n⟩], by simp [searchLoop, hr]⟩
     | none => exact ⟨[⟨a :: p, .user n⟩], by simp [searchLoop, hr]⟩
     | unhandled =>
+      by_cases hfa : c.fall (a :: p) = true
+      · exact ⟨[⟨a :: p, .user n⟩, ⟨a :: p, .empty⟩], by simp [searchLoop, hr, hfa]⟩
+      replace hfa : c.fall (a :: p) = false := by simpa using hfa
       obtain ⟨l, h1, h2⟩ := ih { temp := p, log := k.log ++ [⟨a :: p, .user n⟩] ++ [⟨a :: p, .empty⟩] }
       refine ⟨[⟨a :: p, .user n⟩, ⟨a :: p, .empty⟩] ++ l, ?_, ?_⟩
-      · simp only [searchLoop, hr]; rw [h1]; simp
+      · simp only [searchLoop, hr, hfa, Bool.false_eq_true, if_false]; rw [h1]; simp
       · intro x hx; simp at hx; rcases hx with rfl | rfl | hx
         · simp
         · simp
         · exact h2 x hx
     | pass =>
+      by_cases hfa : c.fall (a :: p) = true
+      · exact ⟨[⟨a :: p, .user n⟩], by simp [searchLoop, hr, hfa]⟩
+      replace hfa : c.fall (a :: p) = false := by simpa using hfa
       obtain ⟨l, h1, h2⟩ := ih { temp := p, log := k.log ++ [⟨a :: p, .user n⟩] }
       refine ⟨[⟨a :: p, .user n⟩] ++ l, ?_, ?_⟩
-      · simp only [searchLoop, hr]; rw [h1]; simp
+      · simp only [searchLoop, hr, hfa, Bool.false_eq_true, if_false]; rw [h1]; simp
       · intro x hx; simp at hx; rcases hx with rfl | hx
         · simp
         · exact h2 x hx
